@@ -31,6 +31,10 @@ struct Interp {
     std::vector<int> ioForest;
     long nodeDeaths = 0;
     bool strictErrors = false;         // step 'strict': assert even the error points a shortcut may absorb
+    std::vector<int> pendingEvents;    // relation slots pushed by 'event' steps (partitioned saturation)
+    // combinations excluded by construction because of a recorded known finding (interp_reach.cc)
+    bool excludedCombo(const char* family, const std::string& combo, const std::string& alg,
+                       const FSpec& relSpec, int setKind) const;
     std::vector<std::map<long, uint64_t>> sigs;   // per forest: handle -> content signature (reuse detection)
 
     Interp(const Program& p, const Checks& c) : P(p), C(c) {}
@@ -74,6 +78,7 @@ Val convertVal(const Val& v, const FSpec& from, const FSpec& to);   // COPY conv
 MEDDLY::binary_factory* binaryFactory(const std::string& op);
 MEDDLY::unary_factory* unaryFactory(const std::string& op);
 bool userMap(const std::string& op, const Val& x, char resRange, Val& y);
+bool doReachFamily(Interp& I, const Step& s, bool& handled);    // interp_reach.cc
 
 } // namespace mv
 #endif
